@@ -3,6 +3,7 @@ package props
 import (
 	"fmt"
 	"os"
+	"path/filepath"
 	"strings"
 	"testing"
 
@@ -17,6 +18,7 @@ type c17Case struct {
 	Tree       *gen.Tree `json:"tree"`
 	PreOutputs bool      `json:"preOutputs"` // run the fault-free variant first
 	EditTypes  bool      `json:"editTypes"`  // change input types before the failing run (stale outputs)
+	DropOne    bool      `json:"dropOne"`    // after the first run, regenerate with one converter removed
 	Patterns   []string  `json:"patterns"`
 }
 
@@ -52,6 +54,41 @@ func c17Eval(s *vh.Session, c c17Case) (string, string) {
 		}
 		if msg := checkWritten(dir, before, after, want); msg != "" {
 			return "successful run: " + msg, ""
+		}
+		// a later successful run over these outputs with one converter less: every output
+		// must again be written completely (nothing of the removed converter may survive in
+		// a file that is still generated)
+		if c.DropOne && len(good.Convs) > 1 {
+			less := cloneTree(good)
+			less.Convs = less.Convs[:len(less.Convs)-1]
+			// converters are sorted by id; rebuild the declaring files without the last one
+			for f := range less.Files {
+				if strings.HasSuffix(f, "/conv.go") || strings.HasSuffix(f, "/more.go") {
+					delete(less.Files, f)
+					_ = os.Remove(filepath.Join(dir, f))
+				}
+			}
+			less.Rerender()
+			if err := writeLayout(dir, less); err != nil {
+				return "", "INFRA: " + err.Error()
+			}
+			want2, res2 := inProcessFiles(dir, c.Patterns, nil)
+			if res2.OK() {
+				before2, _ := vh.Snapshot(dir)
+				run2 := s.RunCLI(dir, append([]string{"gen"}, c.Patterns...)...)
+				s.Eval(1)
+				after2, _ := vh.Snapshot(dir)
+				if run2.Exit != 0 {
+					return fmt.Sprintf("regeneration after removing a converter exited with status %d: %s", run2.Exit, shortErr(run2.Stderr)), ""
+				}
+				if msg := checkWritten(dir, before2, after2, want2); msg != "" {
+					return "successful regeneration after removing a converter: " + msg, ""
+				}
+			}
+			// back to the full tree for the failing-run stage
+			if err := writeLayout(dir, good); err != nil {
+				return "", "INFRA: " + err.Error()
+			}
 		}
 	}
 	if faulty == 0 {
@@ -185,7 +222,7 @@ func TestC17(t *testing.T) {
 			}
 			_ = dirHint
 			tree := gen.Layout(rt, o)
-			c := c17Case{Tree: tree, PreOutputs: rapid.Bool().Draw(rt, "pre-outputs"), EditTypes: rapid.Bool().Draw(rt, "edit-types"), Patterns: []string{"./..."}}
+			c := c17Case{Tree: tree, PreOutputs: rapid.Bool().Draw(rt, "pre-outputs"), EditTypes: rapid.Bool().Draw(rt, "edit-types"), DropOne: rapid.Bool().Draw(rt, "drop-one"), Patterns: []string{"./..."}}
 			msg, infra := c17Eval(s, c)
 			if strings.HasPrefix(infra, "INFRA") {
 				s.Infra(infra)
